@@ -510,7 +510,12 @@ def run_case(case):
 
     def twin(scripts):
         ob, _, _ = run_session(fault, followups, scripts, False)
-        oa, _, _ = run_session(fault, followups, scripts, True)
+        try:
+            oa, _, _ = run_session(fault, followups, scripts, True)
+        except common.HarnessError as e:
+            # the answer script was recorded on the pristine twin; if the faulted twin asks for a different
+            # number of random values it already behaves differently
+            oa = [("diverged", str(e)[:80])]
         return ob, oa
     # default scripts first, then one deviation at each choice point of each follow-up
     base = [[] for _ in followups]
